@@ -1018,6 +1018,8 @@ void SimplifyConstTimes::constSimplify(SymRef s, vec<PTRef> const & terms, SymRe
         }
         if (not l.isOne(tr)) {
             if (l.isPlus(tr)) {
+                // A second sum makes the product non-linear: keep both factors so that mkTimes rejects it
+                if (plus != PTRef_Undef) { terms_new.push(plus); }
                 plus = tr;
             } else if (l.isConstant(tr)) {
                 con = tr;
